@@ -9,6 +9,7 @@ open Petl.Gen
 
 def expectedC10 : List (String × String) := [
   ("file:comparison.py", "c46d05a1308c92ce"),
+  ("file:compat.py", "2a259e16acd200bc"),
   ("file:config.py", "142bde514c82c29d"),
   ("file:transform/dedup.py", "bd5f47cbc6d0c73d"),
   ("file:transform/sorts.py", "137f7e8a70e043fe"),
